@@ -140,14 +140,14 @@ CLAIMED = {
          "surviving task is actually reported by Mesos. These parts of the statement are histories of an external system.",
          "DESIGN.md §6 C18"),
  "C06": ("Proof obligations on the sequential skeleton, for all paths: TeardownEnvironment sends the first release request and receives its answer "
-         "before any DESTROY hook call or hook task is triggered, sends a second release request for the hook tasks, cancels the never-awaited calls, "
+         "before any DESTROY hook call or hook task is triggered, sends a second release request carrying the DESTROY hook tasks of EVERY weight, collected before any status filter (a genuine defect "
+         "found here - only the active hook tasks of the last weight were released - repaired by a fix: commit), cancels the never-awaited calls, "
          "sets DONE (under the transition lock) only after both rounds were answered, removes the environment from the listing only after DONE, and "
          "returns an error whenever DONE was not reached (no half-removal); doTeardownAndCleanup retries a failed teardown once with force, answers a "
          "forced failure with a non-OK gRPC status, requests the kill of the workflow's tasks unless keepTasks is set, and never when it is.",
          "The rendezvous through pendingTeardownsCh and the event loop, Mesos kill acknowledgements and everything timing-related are abstracted (a "
-         "receive yields an arbitrary value and havocs the heap). Not yet obligations: that the second release request carries the hook tasks of ALL "
-         "weights (suspected defect: it carries only the last weight's), releaseTasks' per-task accounting, cancelCallsPendingAwait's loops, the "
-         "failure tail of CreateEnvironment. grpc status: New(code).Err() != nil for code != OK is an assumed contract.",
+         "receive yields an arbitrary value and havocs the heap). releaseTasks asks releaseTask for every task of the list and reports once; releaseTask clears the owner unless another environment "
+         "holds the task. Not obligations: cancelCallsPendingAwait's loops, the failure tail of CreateEnvironment. grpc status: New(code).Err() != nil for code != OK is an assumed contract.",
          "DESIGN.md §6 C06"),
  "C12": ("Proof obligations for all paths: Servent.ProcessResponse looks up and deletes exactly the pending entry keyed by (the reply's command id, "
          "its sender), writes the reply only into the call found there and signals only a found call - unknown, late or duplicate replies touch "
